@@ -416,7 +416,8 @@ def translate_timer_rest(repo):
 
 
 JOB_FIELDS = {"__mark_delete": ("pj_mark_delete", "bool", "set_pj_mark_delete"), "__max_attempts": ("pj_max_attempts", "int", None),
-              "__attempts": ("pj_attempts", "int", None), "__delay": ("pj_delay", "bool", None),
+              "__attempts": ("pj_attempts", "int", "set_pj_attempts"),
+              "__failed_attempts": ("pj_failed_attempts", "int", "set_pj_failed_attempts"), "__delay": ("pj_delay", "bool", None),
               "__skip_missing": ("pj_skip_missing", "bool", None), "__start": ("pj_start", "datetime", None),
               "__stop": ("pj_stop", "opt:datetime", None), "__tzinfo": ("pj_tzinfo", "tzinfo", None),
               "__timers": ("pj_timers", "list:pytimer", "set_pj_timers")}
@@ -442,6 +443,13 @@ def translate_jobstate(repo):
                        ("timedelta", "job_timedelta"), ("datetime", "job_datetime")):
         fd = M.find_method(tree, "BaseJob", meth)
         out.append(O.ObjMethod(fd, {}, "pyjobstate", JOB_FIELDS, JOB_ALIASES, TIMER_METHODS, templates).emit(name))
+    # Job._exec of both front ends (the callback's outcome is a parameter)
+    for rel, name in (("scheduler/threading/job.py", "thr_job_exec"), ("scheduler/asyncio/job.py", "aio_job_exec")):
+        p2 = os.path.join(repo, rel)
+        CURFILE[0] = p2
+        fd = M.find_method(ast.parse(open(p2).read()), "Job", "_exec")
+        out.append(O.ObjMethod(fd, {}, "pyjobstate", JOB_FIELDS, JOB_ALIASES, TIMER_METHODS, templates,
+                               opaque_params=("logger",)).emit(name))
     return HEADER % path + "From Gen Require Import GenOccur GenTimer.\n\n" + "\n".join(out)
 
 
@@ -470,8 +478,7 @@ def translate_jobinit(repo):
     fd = M.find_method(tree, "BaseJob", "__init__")
     m = O.ObjMethod(fd, dict(JOBUTIL_KNOWN), "pyjobstate", fields, JOB_ALIASES, TIMER_METHODS, templates,
                     opaque_params=("handle", "args", "kwargs", "tags", "alias"),
-                    opaque_fields=("__type", "__timing", "__handle", "__args", "__kwargs", "__tags", "__alias",
-                                   "__failed_attempts"),
+                    opaque_fields=("__type", "__timing", "__handle", "__args", "__kwargs", "__tags", "__alias"),
                     constructors={"JobTimer": ("jobtimer_new", ["jobtype", "timingu", "datetime", "bool"], "pytimer")})
     text = m.emit("basejob_init")
     params = [(a, t) for a, t in m.params]
